@@ -115,3 +115,16 @@ pub fn sparse_get_params(universe: usize, ones: usize) -> (usize, usize) {
 // Error messages built with format!() drag the whole fmt machinery into the formula; their text is
 // never the subject of a property. (Guidance: stub alloc::fmt::format.)
 pub fn fmt_format_empty(_args: std::fmt::Arguments<'_>) -> String { String::new() }
+
+// SampleIndex::parameters(values, universe) = (s2, d) with s1 = ceil(values/8), d = ceil(universe/s1),
+// s2 = ceil(universe/d). Its symbolic 64-bit divisions feed `IntVector::with_len(s2, ..)`, a
+// symbolic allocation size. Closed form for values <= 16 (universe > 0 is the caller's guard):
+//   values <= 8 : s1 = 1, d = universe, s2 = 1
+//   values <= 16: s1 = 2, d = ceil(universe/2), s2 = ceil(universe/d) = 1 if universe == 1 else 2
+pub fn sample_index_parameters(values: usize, universe: usize) -> (usize, usize) {
+    assert!(values >= 1 && values <= 16 && universe >= 1, "stub: SampleIndex::parameters closed form only covers 1..=16 values");
+    if values <= 8 { (1, universe) } else {
+        let d = universe / 2 + universe % 2;
+        (if universe == 1 { 1 } else { 2 }, d)
+    }
+}
